@@ -215,6 +215,12 @@ def drive(ctx, mon, tier, only_case=None):
                     with mon.quiet():
                         t = L.AnsiString(v)
                     t.apply_formatting(c, a, b, topmost=top)
+                if nv <= 40:
+                    # the integer 0 (RESET) given directly is a setting like any other
+                    for a, b in ((0, 4), (1, 3), (2, None)):
+                        with mon.quiet():
+                            t = L.AnsiString(v) if nv % 3 else L.AnsiStr(v)
+                        t.apply_formatting(0, a, b, topmost=bool(nv % 2))
             ctx.extra['n_small_scope_values'] = nv
             return
         if case == 1:
